@@ -4,7 +4,7 @@ CONSTANTS
  Q = 11
  Gg = 2
  Vars = {"n"}
- Ns = {2, 3, 4}
+ Ns = {3}
  MsgVecs <- MV23
  CCoins <- C4c
  SCoins <- C2d
